@@ -129,8 +129,17 @@ def clone(m):
 def replica(seq):
     """A fresh Sequence holding deep copies of exactly the view(s) of `seq` that are marked fresh. Reading it
     never disturbs `seq`."""
-    a = AbsoluteSequence([clone(m) for m in seq._abs._messages]) if not seq._abs_stale else None
-    r = RelativeSequence([clone(m) for m in seq._rel._messages]) if not seq._rel_stale else None
+    memo = {}
+
+    def _c(m):
+        # an object that occurs twice in a list is one object twice in the replica as well
+        if id(m) not in memo:
+            memo[id(m)] = clone(m)
+        return memo[id(m)]
+
+    a = AbsoluteSequence([_c(m) for m in seq._abs._messages]) if not seq._abs_stale else None
+    memo = {}
+    r = RelativeSequence([_c(m) for m in seq._rel._messages]) if not seq._rel_stale else None
     if a is None and r is None:
         from pbt.oracles import Malformed
         raise Malformed("both views stale")
